@@ -6,9 +6,10 @@ import ast
 
 from ..cfg import TryCtx
 from ..core import rule
-from ..dataflow import DefUse
-from ..program import AnalysisError, dotted, src, walk_local
-from .common import handler_catching, handler_body_nodes, raise_ctor_args, unwrap_await, where
+from ..dataflow import DefUse, origins
+from ..program import AnalysisError, dotted, src
+from ..core import walk_local  # inline-aware
+from .common import handler_catching, handler_body_nodes, raise_ctor_args, unwrap_await, where, loops_over
 from .c01 import response_status
 
 REP = "xandikos.sync.SyncCollectionReporter"
@@ -101,7 +102,7 @@ def t2(ctx):
                       "iter_changes substitutes an empty tree (or swallows the lookup error) for a token other than None: a foreign token gets a successful full listing"))
     ids = ctx.own_method(SBC, "iter_differences_since")
     cfg = ctx.cfg(ids)
-    fors = [n for n in cfg.nodes if n.kind == "for" and isinstance(n.ast.iter, ast.Call) and (dotted(n.ast.iter.func) or "").endswith("store.iter_changes")]
+    fors = loops_over(cfg, "store.iter_changes")
     ok = False
     for f in fors:
         h = handler_catching(cfg, f, "InvalidCTag")
@@ -149,28 +150,63 @@ def t3(ctx):
     du = DefUse(cfg)
     ys = [n for n in cfg.stmt_nodes() if n.kind == "stmt" and isinstance(n.ast, ast.Expr) and isinstance(n.ast.value, ast.Yield)]
     removed = changed = False
+    listing_loops = loops_over(cfg, "iter_with_etag", du)
+    old_maps = set()     # local names of the dict built from the old listing
+
+    def base_name(e):
+        while isinstance(e, (ast.Call, ast.Attribute, ast.Subscript)):
+            e = e.func if isinstance(e, ast.Call) else e.value
+        return e.id if isinstance(e, ast.Name) else None
+
+    def from_listing(node, e) -> bool:
+        os_ = origins(du, node, e)
+        return bool(os_) and all(o.kind == "elem" and o.node in listing_loops for o in os_)
+
     for y in ys:
         v = y.ast.value.value
         if not (isinstance(v, ast.Tuple) and len(v.elts) == 4):
             continue
         last = v.elts[3]
         if isinstance(last, ast.Constant) and last.value is None:
-            # inside a loop over the leftover of the old listing
-            nm = v.elts[0].id if isinstance(v.elts[0], ast.Name) else None
-            for d in du.reaching(y, nm) if nm else []:
-                if d.kind == "for" and "previous" in src(d.value):
+            # inside a loop over the leftover of a dict that was built from a listing
+            for o in origins(du, y, v.elts[0]):
+                if o.kind != "elem":
+                    continue
+                nm = base_name(o.leaf)
+                if nm is None:
+                    continue
+                built = False
+                for o2 in origins(du, o.node, ast.Name(id=nm, ctx=ast.Load())):
+                    if o2.kind == "expr" and o2.leaf is not None and any(
+                            isinstance(x, ast.Call) and (dotted(x.func) or "").endswith("iter_with_etag") for x in ast.walk(o2.leaf)):
+                        built = True
+                # ... or filled entry by entry inside a loop over a listing
+                for m in cfg.stmt_nodes():
+                    if m.kind == "stmt" and isinstance(m.ast, ast.Assign) and any(
+                            isinstance(t_, ast.Subscript) and dotted(t_.value) == nm and from_listing(m, t_.slice) for t_ in m.ast.targets):
+                        built = True
+                if built:
                     removed = True
+                    old_maps.add(nm)
         else:
-            for t, pol in cfg.required_conditions(y):
-                if isinstance(t, ast.Compare) and isinstance(t.ops[0], ast.NotEq) and pol and {"old_etag", "new_etag"} <= {x.id for x in ast.walk(t) if isinstance(x, ast.Name)}:
+            for tn in [t_ for t_ in cfg.nodes if t_.kind == "test"]:
+                t = tn.ast
+                if not (isinstance(t, ast.Compare) and len(t.ops) == 1 and isinstance(t.ops[0], (ast.NotEq, ast.Eq))):
+                    continue
+                diff = "t" if isinstance(t.ops[0], ast.NotEq) else "f"
+                if y.id in cfg.reachable([cfg.entry], block_edges=[(tn, m, l) for m, l in tn.succ if l == diff]):
+                    continue
+                sides = [t.left, t.comparators[0]]
+                if any(from_listing(tn, a_) and not from_listing(tn, b_) for a_, b_ in (sides, sides[::-1])):
                     changed = True
     obs.append(ctx.ob(changed, ic.qualname, ic.where, "changed/new members yielded under old_etag != new_etag", "yield guarded by old_etag != new_etag",
                       "iter_changes no longer yields exactly the members whose etag differs from the old listing"))
     obs.append(ctx.ob(removed, ic.qualname, ic.where, "removed members yielded with new etag None", "yield (..., None) for the leftover of the old listing",
                       "iter_changes no longer reports members that disappeared since the old state (no yield with new etag None over the leftover)"))
-    # the leftover is what was not seen again: entries are deleted from `previous` when found
-    dels = [n for n in cfg.stmt_nodes() if n.kind == "stmt" and isinstance(n.ast, ast.Delete) and any("previous" in src(t) for t in n.ast.targets)]
-    pops = [n for n in cfg.stmt_nodes() for c in n.calls() if isinstance(c.func, ast.Attribute) and c.func.attr == "pop" and dotted(c.func.value) == "previous"]
+    # the leftover is what was not seen again: entries are deleted from the old map when found
+    dels = [n for n in cfg.stmt_nodes() if n.kind == "stmt" and isinstance(n.ast, ast.Delete)
+            and any(isinstance(t, ast.Subscript) and base_name(t) in old_maps for t in n.ast.targets)]
+    pops = [n for n in cfg.stmt_nodes() for c in n.calls() if isinstance(c.func, ast.Attribute) and c.func.attr == "pop" and dotted(c.func.value) in old_maps]
     obs.append(ctx.ob(bool(dels or pops), ic.qualname, ic.where, "members seen again are removed from the old listing", "del previous[name]",
                       "entries are never removed from `previous`: every old member is reported as removed"))
     rp = ctx.own_method(REP, "report")
@@ -209,7 +245,7 @@ def t5(ctx):
     from .common import carried_uses
     ic = ctx.own_method(GIT + ".GitStore", "iter_changes")
     cfg = ctx.cfg(ic)
-    loops = [n for n in cfg.nodes if n.kind == "for" and isinstance(n.ast.iter, ast.Call) and (dotted(n.ast.iter.func) or "").endswith("iter_with_etag")]
+    loops = loops_over(cfg, "iter_with_etag")
     if not loops:
         raise AnalysisError("iter_changes: loop over the new listing not found")
     lp = loops[-1]
@@ -242,7 +278,7 @@ def t6(ctx):
     from .common import loop_body_nodes
     fi = ctx.own_method(SBC, "iter_differences_since")
     cfg = ctx.cfg(fi)
-    loops = [n for n in cfg.nodes if n.kind == "for" and isinstance(n.ast.iter, ast.Call) and (dotted(n.ast.iter.func) or "").endswith("store.iter_changes")]
+    loops = loops_over(cfg, "store.iter_changes")
     if not loops:
         raise AnalysisError("iter_differences_since: loop over store.iter_changes not found")
     lp = loops[0]
